@@ -53,6 +53,49 @@ type lnCard struct {
 	done   chan struct{}
 	once   sync.Once
 	onRead func(n int)
+	seen   [][2]int // (release pointer, production point) of every AvailableBuffer call
+}
+
+// lnGapClass classifies where a loss sits as the reader meets it, from the card's side only: the first driver read of at
+// least three frames whose window contains the junction; whether the junction lies in the first frame of that read; and
+// whether the frame-bit pattern seen from the start of that read is regular (first frame-start run as wide as the
+// columns, next frame start exactly one frame later).  Used to tell the losses today's reader re-aligns on from those
+// it cannot see (known finding F5b).
+func (c *lnCard) lnGapClass(junction, cols, rows int) vmap {
+	c.mu.Lock()
+	defer c.mu.Unlock()
+	for _, w := range c.seen {
+		rel, prod := w[0], w[1]
+		if !(rel <= junction && junction < prod) || prod-rel < 3*c.fsize {
+			continue
+		}
+		bit := func(i int) bool { return c.data[rel+4*i+lanceroFBOffset]&1 == 1 }
+		nw := (prod - rel) / 4
+		q, n, p2 := -1, 0, -1
+		seen0 := false
+		for i := 0; i < nw; i++ {
+			if !bit(i) {
+				seen0 = true
+			} else if seen0 && i > 0 && !bit(i-1) {
+				q = i
+				break
+			}
+		}
+		if q >= 0 {
+			for i := q; i < nw && bit(i); i++ {
+				n++
+			}
+			for i := q + n + 1; i < nw; i++ {
+				if bit(i) && !bit(i-1) {
+					p2 = i
+					break
+				}
+			}
+		}
+		return vmap{"found": true, "off": junction - rel, "infirst": junction-rel < c.fsize, "q": q, "n": n, "p": p2,
+			"regular": q >= 0 && n == cols && p2-q == cols*rows}
+	}
+	return vmap{"found": false, "off": 0, "infirst": false, "q": 0, "n": 0, "p": 0, "regular": false}
 }
 
 func (c *lnCard) ChangeRingBuffer(int, int) error                { return nil }
@@ -89,6 +132,7 @@ func (c *lnCard) AvailableBuffer() ([]byte, time.Time, error) {
 	ts := c.t0.Add(time.Duration(prod/c.fsize) * c.period)
 	out := make([]byte, prod-c.rel)
 	copy(out, c.data[c.rel:prod])
+	c.seen = append(c.seen, [2]int{c.rel, prod})
 	return out, ts, nil
 }
 func (c *lnCard) ReleaseBytes(n int) error {
@@ -124,6 +168,7 @@ type lnRun struct {
 	truth  [][]int // per APPARENT frame of the delivered stream: err values then raw fb values (readout order)
 	whole  []int   // index of each apparent frame (0,1,2,...): kept for the trace format
 	before int     // apparent frames that lie entirely before the loss
+	intact [][]int // error words (readout order) of the physical frames that reach the reader whole, in order
 	events []vmap
 }
 
@@ -137,6 +182,7 @@ func lnPrepare(id int, sc *lnScen) *lnRun {
 	}
 	rng := rand.New(rand.NewSource(sc.VSeed + 17))
 	phys := make([]byte, 0, sc.NFrames*fsize)
+	physErrs := [][]int{}
 	for f := 0; f < sc.NFrames; f++ {
 		errs, fbs := make([]int, 0, nw), make([]int, 0, nw)
 		for r := 0; r < sc.Rows; r++ {
@@ -154,6 +200,14 @@ func lnPrepare(id int, sc *lnScen) *lnRun {
 				errs = append(errs, e)
 				fbs = append(fbs, fb)
 			}
+		}
+		physErrs = append(physErrs, errs)
+	}
+	// physical frames that reach the reader whole (none of their bytes lost): the only frames a re-aligned reader may emit
+	run.intact = [][]int{}
+	for f := 0; f < sc.NFrames; f++ {
+		if sc.Gap == nil || sc.Gap.Len == 0 || (f+1)*fsize <= sc.Gap.At || f*fsize >= sc.Gap.At+sc.Gap.Len {
+			run.intact = append(run.intact, physErrs[f])
 		}
 	}
 	delivered := phys
@@ -234,7 +288,7 @@ func (run *lnRun) execute() {
 	sc, ls, card := run.sc, run.ls, run.card
 	run.emit(vmap{"ev": "Config", "scen": run.id, "origin": sc.Origin, "cols": sc.Cols, "rows": sc.Rows, "nsampcard": sc.NsampCard,
 		"frame0": sc.Frame0, "mix": sc.Mix, "mix2": sc.Mix2, "mixafter": sc.MixAfter, "gap": sc.Gap != nil && sc.Gap.Len > 0,
-		"truth": run.truth, "whole": run.whole, "beforegap": run.before, "reads": sc.Reads, "fsize": card.fsize})
+		"truth": run.truth, "whole": run.whole, "intact": run.intact, "beforegap": run.before, "reads": sc.Reads, "fsize": card.fsize})
 	var mixMu sync.Mutex
 	mixAtBlock := -1
 	nblocks := 0
@@ -333,7 +387,11 @@ func (run *lnRun) execute() {
 	card.mu.Lock()
 	left := len(card.data) - card.rel
 	card.mu.Unlock()
-	run.emit(vmap{"ev": "End", "mixatblock": mb, "leftbytes": left, "ncalls": card.ncall})
+	gc := vmap{"found": false, "off": 0, "infirst": false, "q": 0, "n": 0, "p": 0, "regular": false}
+	if sc.Gap != nil && sc.Gap.Len > 0 {
+		gc = card.lnGapClass(sc.Gap.At, sc.Cols, sc.Rows)
+	}
+	run.emit(vmap{"ev": "End", "mixatblock": mb, "leftbytes": left, "ncalls": card.ncall, "gapclass": gc})
 }
 
 func lnRandom(rng *rand.Rand) lnScen {
